@@ -24,7 +24,7 @@ def esc_frames(text):
 
 
 def mutate_line(d, line):
-    k = d.int(0, 9)
+    k = d.int(0, 11)
     if not line:
         return d.choice(LINE_TOKENS)
     i = d.int(0, len(line) - 1)
@@ -36,6 +36,12 @@ def mutate_line(d, line):
     if k == 4: return line[:i] + d.text(UNI + string.printable, 0, 6) + line[j:]
     if k == 5: return re.sub(r'\d+', lambda m: d.choice(['0', '1', '2', '3', '4278190080', '99999999999999999999999', '-5', '1e999', '']), line, count=d.int(1, 3))
     if k == 6: return line[:j][::-1] + line[j:]
+    if k == 10:
+        # an object id of 0 (target, object argument or new id) or an id / integer with thousands of digits
+        big = d.choice(['0', '0', '00', '9' * 4301, '1' + '0' * 5000])
+        return re.sub(r'([@#])\d+', lambda m: m.group(1) + big, line, count=d.int(1, 2)) if d.chance(0.7) else re.sub(r'([(,] ?)\d+(?=[,)])', lambda m: m.group(1) + big, line, count=1)
+    if k == 11:
+        return re.sub(r'\d+(?=[,)])', lambda m: d.choice(['-0', '+5', '0x10', '1_000', '٣', '1e3', '.5', '5.']), line, count=1)
     if k == 7: return line + d.choice(LINE_TOKENS)
     if k == 8: return d.choice(LINE_TOKENS) + line
     return line.replace(d.choice(['(', ')', '@', '#', '.', ', ', '"', ' ']), d.choice(LINE_TOKENS), 1)
